@@ -21,7 +21,8 @@ from props import common
 
 ID = "C01"
 LEVEL = "exploration"
-QUICK_RUNS = 16000
+QUICK_RUNS = 9000
+SUBRUNS = 2          # two scenarios per run, one after the other in the same process (see runner.execute)
 QUICK_BUDGET_S = 50.0
 THOROUGH_RUNS = 10 ** 9
 BATCH = 100
